@@ -36,6 +36,7 @@ let run_generic (d : 'l desc) (id : string) (ops : string list) (out : out_chann
     let name = String.sub op 0 k and args = split_on ',' (String.sub op (k + 1) (String.length op - k - 1)) in
     match name, args with
     | "tag", _ -> ()
+    | "G", _ -> ()
     | "dec", [h] -> let ((l, o), tr) = d.decode d.fresh (bytes_of_hex h) in emit (obs d (cls_of o) tr l)
     | "dec2", [a; b] ->
       let ((l1, _), _) = d.decode d.fresh (bytes_of_hex a) in
